@@ -60,6 +60,11 @@ def run_case(res, case):
     with stubdul.stubbed():
         ae = applicationentity.ClientAE('C08')
         assoc = asceprovider.Association(ae, None, r.choice([16384, 65536, 256, 64]))
+        # an association always has its negotiated contexts
+        from pydicom import uid as _uid
+        assoc.accepted_contexts = {c: asceprovider.PContextDef(c, _uid.UID('1.2.840.10008.5.1.4.1.1.%d' % c),
+                                                               _uid.ImplicitVRLittleEndian)
+                                   for c in (1, 3, 5, 127, 255)}
         if path == 'built':
             msg, values = msgs.make(name, r, uid_len)
         else:
@@ -82,6 +87,23 @@ def run_case(res, case):
                 if values is not None and r.random() < 0.7:
                     new = msgs.fill(msg, r, r.randrange(1, 65), unset_prob=0.5)
                     values.update(new)
+                if values and k and r.random() < 0.3:
+                    # an element removed again, or a multi-valued one extended in place
+                    from pydicom import datadict
+                    res.count('sim.element-removed-or-extended')
+                    lists = [kw for kw, v in values.items() if isinstance(v, list)]
+                    if lists and r.random() < 0.5:
+                        kw = r.choice(sorted(lists))
+                        extra = r.randrange(0, 0xFFFFFFFF)
+                        getattr(msg.command_set, kw).append(extra)
+                        values[kw] = list(values[kw]) + [extra]
+                    else:
+                        optional = sorted(kw for kw in values if kw not in (
+                            'CommandField', 'CommandDataSetType', 'MessageID', 'MessageIDBeingRespondedTo'))
+                        if optional:
+                            kw = r.choice(optional)
+                            del msg.command_set[datadict.tag_for_keyword(kw)]
+                            del values[kw]
             has_data = bool(msg.data_set)
             pattern.append(has_data)
             ctx = r.choice([1, 3, 5, 127, 255])
